@@ -200,6 +200,7 @@ function RH(h){
   var A = []; OBJ[3] = A; OBJIDS[0] = [A,3];
   for (var i=0;i<h.path.length;i++){ try { DOSTEP(A, h.path[i]); } catch (e) {} }
   var thr = "", ret;
+  LOG = [];
   try { ret = DOSTEP(A, h.step); }
   catch (e) { if (e instanceof Error) { thr = e.name; ret = undefined; } else { thr = "value"; ret = e; } }
   return {__enc:{thr:thr, ret:ENCX(ret), objs:[SHOW(A)], aproto:APROTO()}};
